@@ -73,12 +73,13 @@ def timeout_cases(rng, n):
     cases = []
     for i in range(n):
         n_jobs = rng.choice([2, 3])
-        mode = rng.choice(["ordered", "unordered"])
-        calls = [["call", n_jobs, rng.choice([1, 2, "all"]), mode, rng.randint(1, 6), None, [], 0.3],
+        mode = rng.choice(["ordered", "unordered", "unordered"])
+        calls = [["call", n_jobs, rng.choice([1, 2, "all"]), mode, rng.randint(2, 7), None, [], 2.0],
                  ["call", n_jobs, 2, mode, rng.randint(0, 5), None, [], None]]
         cases.append({"id": "t%d" % i, "seed": rng.randint(0, 10 ** 9), "calls": calls, "max_events": 80,
-                      "stall_after": rng.choice([0, 0, 1, 2, 3]), "p_close": 0.0, "p_call2": 0.0, "bsizes": [1, 2],
-                      "managed": rng.random() < 0.5})
+                      "stall_after": rng.choice([0, 1, 1, 2, 2, 3]), "p_close": 0.0, "p_call2": 0.0, "bsizes": [1, 2],
+                      "managed": rng.random() < 0.5, "p_blocked_pull": 1.0, "cb_after_start": True,
+                      "policy": "pull_first" if rng.random() < 0.7 else None})
     return cases
 
 
@@ -190,6 +191,9 @@ def compare(run, model):
         return {"kind": "length", "detail": "model %d events, real %d" % (len(model), len(run["events"]))}
     for k, (ev, ro, rs, m) in enumerate(zip(run["events"], run["obs"], run["snaps"], model)):
         robs = [real_obs_code(o) for o in ro]
+        if ev[0] != "timeout" and [2, 2, 0] in robs and [2, 2, 0] not in m["obs"]:
+            # the wall clock ran past `timeout` outside a timeout event (slow machine): not comparable
+            return {"kind": "inconclusive", "index": k, "event": ev, "detail": "spontaneous TimeoutError"}
         if robs != m["obs"]:
             late = (robs == [] and m["obs"] != [])
             return {"kind": "late" if late else "obs", "index": k, "event": ev, "real": robs, "model": m["obs"]}
@@ -274,7 +278,7 @@ def oracle(run, profile_all=True):
         if tmo is not None:
             for e, obs_k, sn in zip(c["events"], [run["obs"][c["start"] + i] for i in range(len(c["events"]))], c["snaps"]):
                 if e[0] == "timeout" and not any(o[0] == "raised" for o in obs_k) and sn.get("pending_pull"):
-                    bad.append(("C04", "the caller waited 6 s (timeout=%s) for a batch that never completes and no "
+                    bad.append(("C04", "the caller waited 8 s (timeout=%s s) for a batch that never completes and no "
                                        "TimeoutError was raised" % tmo))
         if mode == "unordered":
             # results come batch by batch in the order in which the completions were registered
@@ -375,12 +379,16 @@ def correspondence(ctx, profile, n_cases, extra_cases=()):
     mism, orc = [], []
     it = iter(models)
     replays = []
+    inconclusive = []
     for case, r in zip(cases, runs):
         if "harness_error" in r:
             mism.append((case, r, {"kind": "harness_error", "detail": r.get("tb", r["harness_error"])[-1500:]}))
             continue
         m = next(it)
         d = compare(r, m)
+        if d and d["kind"] == "inconclusive":
+            inconclusive.append(d)
+            continue
         if d and d["kind"] in ("late", "snap"):
             replays.append((case, r, m, d))
         elif d:
@@ -415,7 +423,8 @@ def correspondence(ctx, profile, n_cases, extra_cases=()):
                     orc.append((case, rr, o[:2]))
     stats = {"events": sum(len(r.get("events", [])) for r in runs),
              "calls": sum(1 for r in runs for e in r.get("events", []) if e[0] == "call"),
-             "event_kinds": {}, "outcomes": {}, "replayed_for_timing": len(replays)}
+             "event_kinds": {}, "outcomes": {}, "replayed_for_timing": len(replays),
+             "inconclusive_spontaneous_timeouts": len(inconclusive)}
     for r in runs:
         for e in r.get("events", []):
             stats["event_kinds"][e[0]] = stats["event_kinds"].get(e[0], 0) + 1
@@ -472,7 +481,7 @@ def standard_run(ctx, prop, profile):
     n = {"c01": 160, "c04": 160, "c09": 140, "c16": 140}[profile]
     if not quick:
         n *= 10
-    extra = timeout_cases(ctx.rng, 4 if quick else 20) if profile == "c04" else []
+    extra = timeout_cases(ctx.rng, 16 if quick else 80) if profile == "c04" else []
     res = correspondence(ctx, profile, n, extra)
     mine = [(c, r, o) for c, r, o in res["oracle_failures"] if o[0] in (prop, "ALL")]
     others = [(c, r, o) for c, r, o in res["oracle_failures"] if o[0] not in (prop, "ALL")]
@@ -671,8 +680,8 @@ def lock_probe(ctx, quick, prop):
                 if any(x["progress"].values()):
                     what = "a completion callback made progress while the caller held the dispatch lock: %s" % x["progress"]
             if what and nv < 2:
-                tag = "C09" if ("two threads" in what or "progress" in what) else "C01"
-                if tag == prop or prop == "C09":
+                tag = "C09" if ("two threads" in what) else "C01"
+                if tag == prop or prop == "C09" or "progress" in what:
                     nv += 1
                     ctx.violation("probe %s: %s" % (x["probe"], what), {"kind": "lock-probe", "case": c, "result": x}, True)
     return {"lock_probes": len(res) * 3, "lock_probes_with_contention_observed": effective}
@@ -699,10 +708,60 @@ def f6_replay(ctx):
         ctx.note("F6 no longer reproduces: the refutation C01_predispatch_zero_refuted is stale")
 
 
+def auto_batch(ctx, quick):
+    """the batch-size oracle of batch_size='auto' (AutoBatchingMixin) against Model/AutoBatch.v; hypothesis b >= 1"""
+    rng = ctx.rng
+    cases = []
+    for i in range(300 if quick else 3000):
+        steps = []
+        for _ in range(rng.randint(1, 25)):
+            dur = rng.choice([0.0001, 0.001, 0.01, 0.05, 0.19, 0.2, 0.21, 0.5, 1.0, 1.9, 2.0, 2.1, 3.0, 7.0, 30.0,
+                              rng.random() * 4])
+            steps.append([rng.choice([0, 0, 0, 0, 1, -1]), dur])
+        cases.append({"steps": steps})
+    rc, out, err = common.run_impl("m1_autobatch.py", input_text="\n".join(json.dumps(c) for c in cases) + "\n", timeout=600)
+    res = [json.loads(l) for l in out.splitlines() if l.startswith("{")]
+    if len(res) != len(cases):
+        raise RuntimeError("m1_autobatch: %d results for %d cases: %s" % (len(res), len(cases), err[-1000:]))
+    exprs = []
+    nv = 0
+    branches = {}
+    for c, r in zip(cases, res):
+        if "harness_error" in r:
+            ctx.violation("auto-batching raised: " + r["harness_error"], {"kind": "auto-batch", "case": c}, True)
+            continue
+        bad = [b for b in r["sizes"] if not (isinstance(b, int) and b >= 1)]
+        if bad and nv < 2:
+            nv += 1
+            ctx.violation("batch_size='auto' produced the batch size %s (< 1): dispatch_one_batch slices nothing and the "
+                          "rest of the input is dropped" % bad[0], {"kind": "auto-batch", "case": c, "sizes": r["sizes"]}, True)
+        for old, sp, ideal in r["inputs"]:
+            branches[sp] = branches.get(sp, 0) + 1
+        steps = "[" + "; ".join("(%s, %s)" % (sp, common.zlit(ideal)) for old, sp, ideal in r["inputs"]) + "]"
+        exprs.append("run_sizes 1 %s" % steps)
+    vals = ctx.coq_eval_lines("From Coq Require Import ZArith List. Require Import JV.Model.AutoBatch. Import ListNotations. Open Scope Z_scope.",
+                              "", exprs, name="autobatch", shard=150)
+    nd = 0
+    it = iter(vals)
+    for c, r in zip(cases, res):
+        if "harness_error" in r:
+            continue
+        v = next(it)
+        model = [int(x) for x in re.findall(r"-?\d+", v.replace("%Z", ""))]
+        if model != r["sizes"]:
+            nd += 1
+            if nd == 1 and not ctx.violations:
+                ctx.violation("model of compute_batch_size and AutoBatchingMixin disagree: model %s, implementation %s" % (model, r["sizes"]),
+                              {"kind": "correspondence", "correspondence": "Model/AutoBatch.v vs AutoBatchingMixin", "case": c,
+                               "inputs": r["inputs"]}, found_input=False)
+    return {"auto_batch_sequences": len(cases), "auto_batch_branches": branches, "auto_batch_disagreements": nd}
+
+
 def extra_c01(ctx, quick):
     f6_replay(ctx)
     cov = real_sampling(ctx, quick, "C01", 0.0)
     cov.update(lock_probe(ctx, quick, "C01"))
+    cov.update(auto_batch(ctx, quick))
     return cov
 
 
